@@ -121,7 +121,7 @@ CHECKS["C10"] = {
     "pkg": "./meta",
     "level": "exploration",
     "rule": ("Codec half: error values from the grammar (message: empty/ASCII/UTF-8/arbitrary bytes incl. NUL, CR/LF and '%'/64 KiB; code none/0/1/2/12/2^32/2^63/2^64-1/random; "
-             "code attached under 0..6 wrapper layers of six kinds incl. opaque ones; hostile shapes) through drpcerr.Code, MarshalError, UnmarshalError: layout is 8-byte big-endian code + message, "
+             "code attached under 0..6 wrapper layers of seven kinds incl. opaque ones and a second, different code attached further out (the outermost visible code is the error's code); hostile shapes) through drpcerr.Code, MarshalError, UnmarshalError: layout is 8-byte big-endian code + message, "
              "message and code survive, Code finds the attached code at any transparent depth (and 0 under an opaque layer). Non-trivial: depth >= 2, code >= 2^32, message >= 128 bytes or with special bytes, or a hostile shape. "
              "End-to-end half: a hand-written service description with the four method shapes is registered with the real mux and served over the simulated connection under drawn delivery schedules; the handler sends k in 0..4 messages and then returns nil or an error from the grammar (also together with a response value), "
              "or the dispatcher itself fails (unknown RPC, request the encoding rejects - expected text obtained by calling the mux directly with a stub stream). The client error's Error() must equal the handler error's Error() byte for byte, its code the spec-derived code, the k messages arrive first in order, a nil-returning handler never yields a client error, and a probe RPC succeeds afterwards."),
@@ -182,7 +182,7 @@ CHECKS["C04"] = {
     "level": "exploration",
     "rule": ("Optionally an earlier unary call has completed on the connection and had its context cancelled at once (with the goroutine watching that context possibly late). One streaming RPC is created, then up to five client goroutines (two senders, a receiver, a terminal call Close/CloseSend, plus late operations) are advanced by up to 30 director "
              "choices drawn from an alphabet weighted towards grants (so that several operations are in flight), optionally with 1..4 of 13 stream/manager scheduling points held; then the RPC's context "
-             "is cancelled and the transport is FROZEN (no accept, no delivery; point releases only); optionally a second caller issues a unary call at that moment and has its own context cancelled while it waits. Oracle at quiescence: every operation of the RPC has returned; receives blocked at cancel time satisfy "
+             "is cancelled and the transport is FROZEN (no accept, no delivery; point releases only; with soft cancel and known finding F13 excluded, either client bytes are still accepted - never delivered - or, when no call is held at a point, nothing is accepted and no later calls are issued: the calls in flight must return all the same); optionally a second caller issues a unary call at that moment and has its own context cancelled while it waits. Oracle at quiescence: every operation of the RPC has returned; receives blocked at cancel time satisfy "
              "errors.Is(err, context.Canceled) and, in the default mode, so do sends parked in the transport (only when the cancel is the sole termination cause); nil is never returned by a blocked op; "
              "operations issued afterwards fail at once; once the transport moves again the peer handler ends with its stream context done and the connection is closed or a probe RPC succeeds. "
              "Non-trivial: >= 2 operations in flight at cancel time with a write parked in the transport, a goroutine held at a point, or a terminal call in flight. Distinct by action trace + programs. "
